@@ -11,7 +11,9 @@ Fragment: assignments to a local / `self.reward` / `self.location_in_state` / `l
 `def f(x): return v1 if x == k1 else v2 if x == k2 else d` (a table function, only usable as `sum(map(f, e)) / len(e)`).
 Expressions: constants, locals, `state`, `NOT_PRESENT_IN_STATE`, `self.reward`, `self.location_in_state`, `self.config.<f>`,
 `last_action_response.action | .request | .response.status`, list displays, one-entry dict displays, `== != is is not`,
-`not / and / or`, `a if c else b`, `e['k']`, `e[-1]`, `e.get('k')`, `access_from_nested_dict(a, b)`, `self.callback(e)`."""
+`not / and / or`, `a if c else b`, `e['k']`, `e[-1]`, `e.get('k')`, `access_from_nested_dict(a, b)`, `self.callback(e)`.
+For module-level functions (`translate_function`): parameters as locals, `[*e]`, `len(e)`, `in` / `not in`, `x = l.pop(0)`, `e[k]`
+with a local `k`, and a call of the function itself."""
 import ast
 from fractions import Fraction
 from typing import Dict, List, Tuple
@@ -52,13 +54,18 @@ def const(v) -> str:
 class Calc:
     """One `calculate` body."""
 
-    def __init__(self, fn: ast.FunctionDef):
+    def __init__(self, fn: ast.FunctionDef, params: List[str] = None, rec_name: str = None):
+        """`params is None`: a component's `calculate(self, state, last_action_response)`. Otherwise a module-level function with
+        exactly these parameters (bound as locals), which may call itself (`rec_name`) with two positional arguments."""
         args = [a.arg for a in fn.args.args]
-        if args != ["self", "state", "last_action_response"] or fn.args.vararg or fn.args.kwarg or fn.args.kwonlyargs:
-            raise Unsupported(f"calculate signature {args}")
+        want = ["self", "state", "last_action_response"] if params is None else list(params)
+        if args != want or fn.args.vararg or fn.args.kwarg or fn.args.kwonlyargs:
+            raise Unsupported(f"{fn.name} signature {args}")
         self.fn = fn
         self.tables: Dict[str, Tuple[List[Tuple[int, float]], float]] = {}
-        self.bound: set = set()
+        self.bound: set = set(params or [])
+        self.method = params is None
+        self.rec_name = rec_name
 
     # ------------------------------------------------------------------ expressions
     def expr(self, e: ast.AST) -> str:
@@ -70,7 +77,7 @@ class Calc:
         if isinstance(e, ast.UnaryOp) and isinstance(e.op, ast.Not):
             return f"(.not {self.expr(e.operand)})"
         if isinstance(e, ast.Name):
-            if e.id == "state":
+            if e.id == "state" and self.method:
                 return ".state"
             if e.id == "NOT_PRESENT_IN_STATE":
                 return ".notPresent"
@@ -92,6 +99,8 @@ class Calc:
             if s == "last_action_response.response.status":
                 return ".itemStatus"
             raise Unsupported(f"attribute {s}")
+        if isinstance(e, ast.List) and len(e.elts) == 1 and isinstance(e.elts[0], ast.Starred):
+            return f"(.copyList {self.expr(e.elts[0].value)})"
         if isinstance(e, ast.List):
             out = ".nil"
             for x in reversed(e.elts):
@@ -112,6 +121,10 @@ class Calc:
                 return f"(.is_ {a} {b})"
             if isinstance(op, ast.IsNot):
                 return f"(.not (.is_ {a} {b}))"
+            if isinstance(op, ast.NotIn):
+                return f"(.notIn {a} {b})"
+            if isinstance(op, ast.In):
+                return f"(.not (.notIn {a} {b}))"
             raise Unsupported(f"comparison {ast.unparse(e)}")
         if isinstance(e, ast.BoolOp):
             k = ".or" if isinstance(e.op, ast.Or) else ".and"
@@ -128,6 +141,8 @@ class Calc:
             if isinstance(sl, ast.UnaryOp) and isinstance(sl.op, ast.USub) and isinstance(sl.operand, ast.Constant) \
                     and sl.operand.value == 1:
                 return f"(.last {self.expr(e.value)})"
+            if isinstance(sl, ast.Name) and sl.id in self.bound:
+                return f"(.index {self.expr(e.value)} {self.expr(sl)})"
             raise Unsupported(f"subscript {ast.unparse(e)}")
         if isinstance(e, ast.BinOp) and isinstance(e.op, ast.Div):
             # sum(map(f, xs)) / len(xs)
@@ -143,8 +158,12 @@ class Calc:
             raise Unsupported(f"division {ast.unparse(e)}")
         if isinstance(e, ast.Call) and not e.keywords:
             f = ast.unparse(e.func)
+            if self.rec_name is not None and f == self.rec_name and len(e.args) == 2:
+                return f"(.recCall {self.expr(e.args[0])} {self.expr(e.args[1])})"
             if f == "access_from_nested_dict" and len(e.args) == 2:
                 return f"(.access {self.expr(e.args[0])} {self.expr(e.args[1])})"
+            if f == "len" and len(e.args) == 1:
+                return f"(.len {self.expr(e.args[0])})"
             if f == "self.callback" and len(e.args) == 1:
                 return f"(.callback {self.expr(e.args[0])})"
             if isinstance(e.func, ast.Attribute) and e.func.attr == "get" and len(e.args) == 1 \
@@ -201,6 +220,12 @@ class Calc:
         if isinstance(s, ast.FunctionDef):
             self.table_function(s)
             return ".pass"
+        if isinstance(s, ast.Assign) and len(s.targets) == 1 and isinstance(s.targets[0], ast.Name) \
+                and isinstance(s.value, ast.Call) and isinstance(s.value.func, ast.Attribute) and s.value.func.attr == "pop" \
+                and isinstance(s.value.func.value, ast.Name) and s.value.func.value.id in self.bound and not s.value.keywords \
+                and len(s.value.args) == 1 and isinstance(s.value.args[0], ast.Constant) and s.value.args[0].value == 0:
+            self.bound.add(s.targets[0].id)
+            return f"(.popFront {lstr(s.targets[0].id)} {lstr(s.value.func.value.id)})"
         if isinstance(s, ast.Assign) and len(s.targets) == 1:
             e = self.expr(s.value)
             t = self.target(s.targets[0])
@@ -235,3 +260,9 @@ class Calc:
 
 def translate_calculate(fn: ast.FunctionDef) -> str:
     return Calc(fn).translate()
+
+
+def translate_function(fn: ast.FunctionDef, params: List[str]) -> str:
+    """A module-level function of the same fragment (plus `[*e]`, `len`, `in` / `not in`, `x = l.pop(0)`, `e[k]` with a local key and
+    self-recursion), its parameters bound as locals: `access_from_nested_dict(dictionary, keys)`."""
+    return Calc(fn, params=params, rec_name=fn.name).translate()
